@@ -455,7 +455,7 @@ func c19GenRestart(r *rand.Rand, first bool) c19Op {
 	if len(op.Names) == 0 && (!op.Allow || r.IntN(2) == 0) {
 		op.Names = []string{"d1"}
 	}
-	op.AgeS = c10Pick(r, []int64{30, 30, 30, 1, 1, 0, 1000000, -5})
+	op.AgeS = c10Pick(r, []int64{30, 30, 30, 1, 1, 0, 1000000, 2000000000, -5})
 	return op
 }
 
@@ -555,7 +555,7 @@ func c19Tags(in c19Input, obs []c19Obs) ([]string, bool) {
 }
 
 func runC19(o Opts) {
-	n := 500
+	n := 1500
 	if o.Tier == "thorough" {
 		n = 8000
 	}
